@@ -1218,6 +1218,8 @@ class Interp:
         """symbolic value -> symbolic boolean (python truthiness)"""
         if hasattr(v, "v_truth"):
             return v.v_truth(self)
+        if hasattr(v, "decide"):
+            return v
         if isinstance(v, Term):
             if v.sort == "bool":
                 return v
